@@ -32,7 +32,7 @@
 /* t <: E (reflexive, transitive closure of VERIF_PARENT; inheritance depth <= 3 is proved as a lemma:
  * group UnitTest.hierarchy) */
 #define VERIF_SUBTYPE(t, E) \
-  ((t) != EXC_none && ((t) == (E) || VERIF_PARENT(t) == (E) || VERIF_PARENT(VERIF_PARENT(t)) == (E) || \
+  ((t) != EXC_none && (E) != EXC_none && ((t) == (E) || VERIF_PARENT(t) == (E) || VERIF_PARENT(VERIF_PARENT(t)) == (E) || \
                        VERIF_PARENT(VERIF_PARENT(VERIF_PARENT(t))) == (E)))
 
 /* `catch (const T&)` selects an in-flight exception of kind x iff x <: T */
